@@ -576,18 +576,27 @@ def reception_scenario(ctx, label, own, prop, direction, pos, kind):
 
 # ---------------------------------------------------------------- the device-information cache
 
+# device instance numbers and station numbers OVERLAP on purpose: the cache keeps records under
+# the instance (an int) and under the address in ONE dict, and Address.__eq__ coerces ints
+# (Address(10) == 10): the stations are 10, 11, 12; the instances 10, 11, 12 (a device whose
+# instance equals its own or ANOTHER device's MAC) and 7.  In the unchanged tree the two kinds
+# of key never meet because hash(Address) is the hash of a tuple, not of the station number.
+CACHE_MACS = [10, 11, 12]
+CACHE_INSTS = [10, 11, 12, 7]
+
+
 def cache_ops(rng, n):
     """a history of DeviceInfoCache operations over 3 addresses and 4 device instances"""
     ops, nacq = [], 0
     for _ in range(n):
         r = rng.random()
         if r < 0.6 or not ops:
-            ops.append(["iam", 1000 + rng.randrange(4), rng.randrange(3), rng.choice(APDUS), rng.randrange(4)])
+            ops.append(["iam", rng.choice(CACHE_INSTS), rng.randrange(3), rng.choice(APDUS), rng.randrange(4)])
         elif r < 0.8:
             if rng.random() < 0.7:
                 ops.append(["acq", "a", rng.randrange(3)])
             else:
-                ops.append(["acq", "i", 1000 + rng.randrange(4)])
+                ops.append(["acq", "i", rng.choice(CACHE_INSTS)])
             nacq += 1
         else:
             ops.append(["rel", rng.randrange(max(1, nacq))])
@@ -600,7 +609,9 @@ def cache_shard(ctx, items):
     instance i from address a the lookups by a and by i return what it announced."""
     L = T.Lock(T.default_cfg(), [])
     from bacpypes.app import DeviceInfoCache
-    addrs, insts = [0, 1, 2], [1000, 1001, 1002, 1003]
+    from bacpypes.pdu import Address
+    A = [Address(m) for m in CACHE_MACS]
+    addrs, insts = [0, 1, 2], list(CACHE_INSTS)
     cases, impl = [], []
     for ops in items:
         cache = DeviceInfoCache()
@@ -608,13 +619,14 @@ def cache_shard(ctx, items):
 
         def view():
             out = []
-            for k in [L.addrs[a] for a in addrs] + insts:
+            for k in [A[a] for a in addrs] + insts:
                 rec = cache.get_device_info(k)
                 if rec is None:
                     out.append(None)
                     continue
                 seg = rec.segmentationSupported
-                out.append([rec.deviceIdentifier, L.peer_of(rec.address), rec.maxApduLengthAccepted,
+                out.append([rec.deviceIdentifier, ([i for i, x in enumerate(A) if x == rec.address] + [99])[0],
+                            rec.maxApduLengthAccepted,
                             T.SEG_NAMES.index(seg) if seg in T.SEG_NAMES else -1,
                             rec.maxSegmentsAccepted, rec.maxNpduLength, getattr(rec, "_ref_count", 0)])
             return out
@@ -622,9 +634,9 @@ def cache_shard(ctx, items):
         for n, o in enumerate(ops):
             try:
                 if o[0] == "iam":
-                    cache.iam_device_info(L.decode_iam(L.iam_octets(o[1], o[3], T.SEG_CODES[o[4]]), L.addrs[o[2]]))
+                    cache.iam_device_info(L.decode_iam(L.iam_octets(o[1], o[3], T.SEG_CODES[o[4]]), A[o[2]]))
                 elif o[0] == "acq":
-                    rec = cache.acquire(L.addrs[o[2]] if o[1] == "a" else o[2])
+                    rec = cache.acquire(A[o[2]] if o[1] == "a" else o[2])
                     if rec is not None:
                         handles.append(rec)
                 elif o[0] == "rel":
@@ -717,7 +729,9 @@ def cache_history_scenario(ctx, label, rng, rseed=None):
     for _step in range(rng.choice([6, 9, 12])):
         r = rng.random()
         if r < 0.45 or not latest:
-            i, a = 1000 + rng.randrange(ninst), rng.randrange(naddr)
+            # instance numbers that are other devices' (or their own) station / hash values:
+            # addresses 0,1,2 of the rig are station 10, station 11 and 2:10
+            i, a = [11, 10, 522, 7][rng.randrange(ninst)], rng.randrange(naddr)
             if i in where and where[i] != a:
                 finish(a)
                 finish(where[i])    # the instance moves: requests holding either record end first
@@ -1172,8 +1186,127 @@ def iam_probe(ctx):
             ctx.count("iam-probe", (name, m))
 
 
+def app_cache_probe(ctx):
+    """the device-information cache HANDED to an application is the one it uses: Application,
+    ApplicationIOController and BIPSimpleApplication constructed with an explicitly passed
+    DeviceInfoCache - still empty / pre-filled / a plain subclass / a container-like subclass
+    (defines __len__, empty = falsy) - shared by TWO applications: identity (`app.deviceInfoCache
+    is the cache passed`, the access point uses the same object) and behaviour (what one
+    application learned from an I-Am sizes the other one's requests).  Plus the same identity
+    probe for every other constructor argument the stack takes by `x or Default()`."""
+    from bacpypes.comm import bind, Server
+    from bacpypes.pdu import Address
+    from bacpypes import app as APP, appservice as AS
+    from bacpypes.apdu import ConfirmedRequestPDU
+    from bacpypes.local.device import LocalDeviceObject
+    from bacpypes.netservice import NetworkServiceAccessPoint, RouterInfoCache
+    helper = T.Lock(T.default_cfg(), [])
+    peer = Address(33)
+
+    class PlainSub(APP.DeviceInfoCache):
+        pass
+
+    class ContainerSub(APP.DeviceInfoCache):
+        def __len__(self):
+            return len(self.cache)
+
+    def device(n):
+        return LocalDeviceObject(objectName="probe%d" % n, objectIdentifier=("device", n), maxApduLengthAccepted=1024,
+                                 segmentationSupported="segmentedBoth", maxSegmentsAccepted=16, vendorIdentifier=999)
+
+    class Net(Server):
+        def __init__(self):
+            Server.__init__(self)
+            self.sent = []
+
+        def indication(self, pdu):
+            self.sent.append(pdu)
+
+    def wire(app_cls, n, cache):
+        confs = []
+
+        class A(app_cls):
+            def confirmation(self, apdu):
+                confs.append(apdu)
+                if issubclass(app_cls, APP.ApplicationIOController):
+                    app_cls.confirmation(self, apdu)
+        if app_cls is APP.BIPSimpleApplication:
+            a = A(device(n), "127.0.0.1:%d" % (47900 + n), cache)
+            return a, a.smap, None, confs
+        a = A(device(n), deviceInfoCache=cache)
+        asap = AS.ApplicationServiceAccessPoint()
+        smap = AS.StateMachineAccessPoint(a.localDevice)
+        smap.deviceInfoCache = a.deviceInfoCache          # as every stack in the repository wires it
+        net = Net()
+        bind(a, asap, smap, net)
+        return a, smap, net, confs
+
+    n = 0
+    for app_cls in (APP.Application, APP.ApplicationIOController, APP.BIPSimpleApplication):
+        for kind in ("empty", "prefilled", "plain-subclass", "container-subclass"):
+            n += 2
+            case = {"probe": "app-cache", "application": app_cls.__name__, "cache": kind}
+            cache = {"empty": APP.DeviceInfoCache, "prefilled": APP.DeviceInfoCache, "plain-subclass": PlainSub,
+                     "container-subclass": ContainerSub}[kind]()
+            if kind == "prefilled":
+                cache.iam_device_info(helper.decode_iam(helper.iam_octets(77, 480, 0), Address(44)))
+            try:
+                a1, smap1, net1, c1 = wire(app_cls, n, cache)
+                a2, smap2, net2, c2 = wire(app_cls, n + 1, cache)
+            except OSError as e:
+                ctx.count("app-cache-probe", (app_cls.__name__, kind, "no-socket"))
+                continue
+            try:
+                for who, a, smap in (("first", a1, smap1), ("second", a2, smap2)):
+                    if a.deviceInfoCache is not cache:
+                        ctx.fail("cache-identity", case, "%s(deviceInfoCache=<%s cache>): the %s application uses %s instead of "
+                                 "the cache it was given" % (app_cls.__name__, kind, who,
+                                                              "a private DeviceInfoCache" if a.deviceInfoCache is not None else "None"))
+                    elif smap.deviceInfoCache is not cache:
+                        ctx.fail("cache-identity", case, "the access point of the %s application does not use the cache passed" % who)
+                # the first application hears the peer's I-Am: 50 octets, no segmentation
+                a1.deviceInfoCache.iam_device_info(helper.decode_iam(helper.iam_octets(500 + n, 50, 3), peer))
+                if net2 is not None:
+                    req = ConfirmedRequestPDU(200)
+                    req.pduDestination = peer
+                    req.put_data(pattern(113))
+                    if isinstance(a2, APP.ApplicationIOController):
+                        from bacpypes.iocb import IOCB
+                        iocb = IOCB(req)
+                        a2.request_io(iocb)
+                        helper.vt.run(until=helper.vt.now + 0.1)      # the IO controller works through deferred functions
+                        c2 = [x for x in c2] + ([iocb.ioError] if iocb.ioError is not None and iocb.ioError not in c2 else [])
+                    else:
+                        a2.request(req)
+                    data = [p for p in net2.sent if getattr(p, "apduType", None) == 0]
+                    aborted = [x for x in c2 if getattr(x, "apduType", None) == 7 and x.apduAbortRejectReason == 4]
+                    if data or len(aborted) != 1:
+                        ctx.fail("cache-shared", case, "the first application learned (I-Am) that the peer accepts 50 octets and no "
+                                 "segments; the second application, sharing the cache, sent %d request frame(s) (first %s octets, "
+                                 "segmented=%s) instead of aborting" % (
+                                     len(data), len(data[0].pduData) + 4 if data else "-", bool(data and data[0].apduSeg)))
+                ctx.count("app-cache-probe", (app_cls.__name__, kind, "ok"))
+            finally:
+                for a in (a1, a2):
+                    mux = getattr(a, "mux", None)
+                    if mux is not None:
+                        try:
+                            mux.close_socket()
+                        except Exception:
+                            pass
+    # every other `x or Default()` constructor argument: identity
+    ric = RouterInfoCache()
+    nsap = NetworkServiceAccessPoint(router_info_cache=ric)
+    if nsap.router_info_cache is not ric:
+        ctx.fail("argument-identity", {"probe": "app-cache", "argument": "NetworkServiceAccessPoint(router_info_cache=...)"},
+                 "NetworkServiceAccessPoint replaced the (empty) RouterInfoCache it was given")
+    ctx.count("app-cache-probe", ("NetworkServiceAccessPoint", "router_info_cache", "ok"))
+    helper.vt.reset(T.START)
+
+
 def run(ctx):
     iam_probe(ctx)
+    app_cache_probe(ctx)
     for name, c in corpus_cases():
         if c.get("op") == "cache":
             cache_shard(ctx, [c["ops"]])
@@ -1245,6 +1378,9 @@ def replay(ctx, payload):
         return
     if isinstance(case, dict) and case.get("op") == "cache":
         cache_shard(ctx, [case["ops"][:case.get("upto", len(case["ops"]))]])
+        return
+    if isinstance(case, dict) and case.get("probe") == "app-cache":
+        app_cache_probe(ctx)
         return
     if isinstance(case, dict) and "iam_octets" in case:
         iam_probe(ctx)
